@@ -98,3 +98,8 @@ META["C18"] = _m("proof", "DESIGN.md section 6, C18",
     "Coq: awareness as a per-client register (idempotent, order-insensitive on well-formed update sets for remote clients, clock monotone, lower clock never replaces, local state protected); handshake convergence at operation-set level (diff against any stale vector is complete; only the delivered set matters) + real Awareness/Protocol peers under seeded interleavings with concurrent edits and all permutations of awareness updates, model compared after every apply",
     "Order-insensitivity is a statement over all permutations and the handshake over all interleavings; both are proved for the model and exercised on the real peers.",
     "Model observation (documented, outside the property's quantifier): entries for the LOCAL client written by others with higher clocks are order-sensitive.")
+
+META["C11"] = _m("proof", "DESIGN.md section 6, C11",
+    "Coq theorems (unbounded, loop invariants) that the change list, the key changes and the rich-text delta computed by a line-by-line Gallina transcription of event_change_set / event_keys / TextEvent::get_delta are exact edit scripts for every item list; tied to the code by evaluating the extracted transcription on the item lists of real transactions inside the observer callback (same event, invariants hold, same before/after content) and by shadow copies of every reachable type maintained only from events",
+    "Exactness of an edit script is a statement over all interleavings of added, deleted, pre-existing and tombstoned items - a space indexed by histories. The theorems settle it for the transcription for every item list; the correspondence makes the transcription print the implementation's own event on more than a hundred thousand real transactions per quick run and checks the theorems' hypotheses on each; the shadow-copy oracle additionally covers dispatch (which types fire, once, with which path), which is not modelled.",
+    "Partial: observer dispatch (which types fire, at most once, deep bubbling) is decided on the implementation only. Known finding: an event (with a no-op edit script) fires for a type the transaction touched without changing its content. Two defects of the pinned tree (out-of-order integrated items invisible to event_keys / add_changed_type) repaired by fix commits 1419c27, 83fda94.")
